@@ -252,6 +252,7 @@ open Ptk.C17.Ed
 structure S where
   e : E
   sel : Bool                 -- `buffer.selection_state is not None`
+  inv : Bool                 -- `buffer.validation_state == INVALID`: the validator has rejected THIS text
 deriving DecidableEq, Repr
 
 def kEsc := base + 12        -- escape
@@ -260,18 +261,28 @@ def kCtrlAt := base + 14     -- c-@ / c-space: start-selection
 
 /-- keys whose only bindings are filtered by `insert_mode` (inactive while a selection exists) -/
 def insertOnly (k : Nat) : Bool :=
-  k < base || k == kBackspace || k == kDelete || k == kCtrlK || k == kCtrlU
+  k < base || k == kBackspace || k == kDelete || k == kCtrlK || k == kCtrlU || k == kCtrlD
 
 def known1 (k : Nat) : Bool :=
-  k < base || (base ≤ k && k ≤ base + 14)     -- (c-x alone: the `_ignore` binding of basic.py)
+  k < base || (base ≤ k && k ≤ base + 15)     -- (c-x alone: the `_ignore` binding of basic.py)
 
 def isDigit (k : Nat) : Bool := 48 ≤ k && k ≤ 57
+
+/-- the validator of the session (`Validator.from_callable`), by number:
+    0 = none; 1 = the text must not be empty (error at position 0);
+    2 = the text must not contain `x` (`move_cursor_to_end=True`: error at the end) -/
+def valid (v : Nat) (t : List Char) : Bool :=
+  if v = 1 then !t.isEmpty else if v = 2 then !t.contains 'x' else true
+
+/-- `ValidationError.cursor_position` of that validator -/
+def errorPos (v : Nat) (t : List Char) : Nat := if v = 2 then t.length else 0
 
 def exact (s : S) : List Key → Bool
   | [.accept] => true
   | [.abort] => true
   | [.cpr] => true
-  | [.other k] => known1 k && !(s.sel && insertOnly k)
+  -- c-d: `app.exit(exception=EOFError)` when the buffer is empty (shortcuts/prompt.py), else delete-char
+  | [.other k] => known1 k && (!(s.sel && insertOnly k) || (k == kCtrlD && s.e.text.isEmpty))
   | [.other a, .accept] => a == kEsc && !s.sel          -- escape enter: accept-line (insert_mode)
   | [.other a, .other b] => (a == kCtrlX && b == kCtrlX) || (a == kEsc && isDigit b)  -- c-x c-x, escape digit
   | _ => false
@@ -299,14 +310,25 @@ def rep (e : E) (k : Nat) : Nat → E
 
 /-- the named commands of the scripts with their repetition count -/
 def keyN (e : E) (k : Nat) (n : Nat) : E :=
-  if k < base ∨ k = kBackspace ∨ k = kDelete ∨ k = kLeft ∨ k = kRight ∨ k = kCtrlB ∨ k = kCtrlF then
+  if k < base ∨ k = kBackspace ∨ k = kDelete ∨ k = kLeft ∨ k = kRight ∨ k = kCtrlB ∨ k = kCtrlF ∨ k = kCtrlD then
     rep e k n
   else Ed.key e k
 
-def handler (s : S) (a : Option Nat) : List Key → HOut S
-  | [.accept] => ⟨s, .exit, none⟩
+/-- `Buffer.validate_and_handle()` → `validate(set_cursor=True)`: a cached verdict for the unchanged
+    text is reused (`validation_state != UNKNOWN`; cursor movements do not reset it, text changes
+    do); otherwise the validator is called: accepted → `app.exit(result=text)`; rejected → the
+    cursor goes to the error position, the verdict is cached, the application goes on.
+    (Sessions of the cases use `validate_while_typing=False`: with the default, an asynchronous
+    validation may or may not have cached the verdict before Enter is processed.) -/
+def acceptLine (v : Nat) (s : S) : HOut S :=
+  if s.inv then ⟨s, .stay, none⟩
+  else if valid v s.e.text then ⟨s, .exit, none⟩
+  else ⟨{ s with e := { s.e with cur := min (errorPos v s.e.text) s.e.text.length }, inv := true }, .stay, none⟩
+
+def handlerCore (v : Nat) (s : S) (a : Option Nat) : List Key → HOut S
+  | [.accept] => acceptLine v s
   | [.abort] => ⟨s, .exit, none⟩
-  | [.other _, .accept] => ⟨s, .exit, none⟩
+  | [.other _, .accept] => acceptLine v s
   | [.other x, .other y] =>
     if x == kCtrlX then
       ⟨{ s with e := { s.e with cur := if s.e.cur = s.e.text.length then 0 else s.e.text.length } }, .stay, none⟩
@@ -315,12 +337,23 @@ def handler (s : S) (a : Option Nat) : List Key → HOut S
   | [.other k] =>
     if k == kCtrlAt then ⟨{ s with sel := !s.e.text.isEmpty }, .stay, none⟩   -- `if buff.text: start_selection`
     else if k == kEsc then ⟨s, .stay, none⟩
+    else if k == kCtrlD && s.e.text.isEmpty then ⟨s, .exit, none⟩  -- `app.exit(exception=EOFError)`
     else if isDigit k && a.isSome then ⟨s, .stay, appendArg a k⟩    -- digit while an argument is typed
     else ⟨{ s with e := keyN s.e k (count a) }, .stay, none⟩
   | _ => ⟨s, .stay, none⟩
 
-def tbl : Tbl S :=
-  { exact := exact, longer := longer, handler := handler, reset := fun _ => ⟨⟨[], 0⟩, false⟩ }
+/-- `Buffer._text_changed`: a handler that changed the text forgets the cached verdict -/
+def handlerV (v : Nat) (s : S) (a : Option Nat) (ks : List Key) : HOut S :=
+  let o := handlerCore v s a ks
+  { o with ed := { o.ed with inv := o.ed.inv && (o.ed.e.text == s.e.text) } }
+
+def handler : S → Option Nat → List Key → HOut S := handlerV 0
+
+/-- the registry of a session with validator number `v` -/
+def tblV (v : Nat) : Tbl S :=
+  { exact := exact, longer := longer, handler := handlerV v, reset := fun _ => ⟨⟨[], 0⟩, false, false⟩ }
+
+def tbl : Tbl S := tblV 0
 
 end Emacs
 
